@@ -610,6 +610,11 @@ def step (st : DState) (line : String) : DState × String :=
   | "case" :: n :: "putq" :: rest => step2 {} ("case" :: n :: "putq" :: rest)
   | "case" :: n :: _ => ({}, "case " ++ n)
   -- server stream
+  | ["rtdel", which, idh] => (match hexToBytes idh with
+      | some b =>
+        if which == "main" then ({ st with rt := st.rt.remove ⟨b⟩ }, "ok")
+        else ({ st with srt := st.srt.remove ⟨b⟩ }, "ok")
+      | none => (st, "bad-op"))
   | ["rtadd", which, idh, addr] => (match mkNode idh addr st.now with
       | none => (st, "bad-op")
       | some n =>
